@@ -119,6 +119,12 @@ theorem subtract_returns (z : Z) (hz : z.WF) (w : Int) (f : Bool) (hh mi s us : 
   rw [e2] at a2
   exact ⟨a2.1, a2.2.1, a2.2.2.1⟩
 
+/-- the driver's `addChecked` is `add` whenever the start's reading on the UTC clock is representable (years 1..9999);
+    otherwise, with fixed-length units only, the implementation's intermediate native value overflows -/
+theorem addChecked_eq_add (v : V) (y mo wk d hh mi s us : Int) (h : inRange (v.w - v.offset) = true) :
+    DTOps.addChecked v y mo wk d hh mi s us = DTOps.add v y mo wk d hh mi s us := by
+  unfold DTOps.addChecked; simp [h]
+
 /-! non-vacuity -/
 example : (DTOps.add ⟨.named ⟨3600000000, [⟨1000000000000, 7200000000⟩]⟩, 1001800000000, false⟩ 0 0 0 0 1 0 0 0).toOption.map (·.w)
     = some (1001800000000 + 3600000000 + 3600000000) := by decide +kernel
